@@ -215,6 +215,7 @@ func runC09(cfg *config, res *monitor.Result) {
 			}
 			var trace []string
 			mutated := false
+			dirty := byte(0xAA)
 			nops := 3 + r.Intn(maxOps-2)
 			for op := 0; op < nops; op++ {
 				check := ""
@@ -305,6 +306,10 @@ func runC09(cfg *config, res *monitor.Result) {
 					if pi := monitor.Try(func() {
 						fm := obj.(fastMsg)
 						buf := make([]byte, fm.Size())
+						for i := range buf { // a reused destination holds earlier content, not zeroes
+							buf[i] = dirty
+						}
+						dirty = dirty*31 + 0x5B
 						gerr = fm.MarshalTo(buf)
 						got = buf
 					}); pi != nil {
